@@ -875,9 +875,23 @@ impl Formatter {
                 self.writer.dedent();
             }
             Expr::If(if_expr) => {
+                // block-structured `if` used as an expression (value position, e.g. `x = if c:`)
+                self.writer.write("if ");
                 self.format_expr(&if_expr.condition.node);
-                self.writer.write(" if ");
-                // Note: This handles ternary-style if expressions
+                self.writer.writeln(":");
+                self.writer.indent();
+                for stmt in &if_expr.then_body {
+                    self.format_statement(&stmt.node);
+                }
+                self.writer.dedent();
+                if let Some(else_body) = &if_expr.else_body {
+                    self.writer.writeln("else:");
+                    self.writer.indent();
+                    for stmt in else_body {
+                        self.format_statement(&stmt.node);
+                    }
+                    self.writer.dedent();
+                }
             }
             Expr::Closure(params, body) => {
                 self.writer.write("(");
